@@ -189,6 +189,13 @@ class Pseudo2NetCDF:
                 nvar, MaskedArray):
             # in-memory masked target: keep the mask
             nvar[:] = pvar[...]
+        elif isinstance(pvar[...], MaskedArray) and isinstance(
+                nvar, NetCDFVariable) and any(
+                    pk in nvar.ncattrs()
+                    for pk in ('scale_factor', 'add_offset')):
+            # packed on disk: the missing code is a value of the packed type;
+            # netCDF4 stores it for the masked cells
+            nvar[:] = pvar[...]
         elif isinstance(pvar[...], MaskedArray):
             nvar[:] = pvar[...].filled(getattr(nvar, 'fill_value', getattr(
                 nvar, '_FillValue', getattr(pvar, 'missing_value', -9999))))
